@@ -66,7 +66,7 @@ def stage(config="native", budget_s=60, watchdog_s=None, shards=None, args=None,
     return s
 
 
-def simple(rule, assumptions, floors, quick_budget=45, thorough_budget=420, level="exploration", extra_quick=None, extra_thorough=None):
+def simple(rule, assumptions, floors, quick_budget=45, thorough_budget=600, level="exploration", extra_quick=None, extra_thorough=None):
     return {
         "level": level,
         "rule": rule,
